@@ -47,12 +47,18 @@ impl Model {
         let mut map: BTreeMap<Uuid, ObstData> = BTreeMap::new();
         let mut fshobstmap: BTreeMap<Uuid, f32> = BTreeMap::new();
 
+        #[cfg(cteenergymodel_verif)]
+        let _vt_meta = crate::verif::acquire("CLIMATEMETADATA");
         let latitude = CLIMATEMETADATA
             .lock()
             .unwrap()
             .get(&self.meta.climate)
             .unwrap()
             .latitude;
+        #[cfg(cteenergymodel_verif)]
+        drop(_vt_meta);
+        #[cfg(cteenergymodel_verif)]
+        let _vt_july = crate::verif::acquire("JULYRADDATA");
         let julyraddata = JULYRADDATA.lock().unwrap();
         let raddata = match julyraddata.get(&self.meta.climate) {
             Some(data) => data,
